@@ -27,6 +27,9 @@ type Program struct {
 	impls map[*types.Named][]types.Type // closed-world implementors cache
 	eff   map[*ssa.Function]*effectSet
 	SS    *SpecSet
+
+	uf           map[string]string // slice-type classes (classes.go)
+	classesBuilt bool
 }
 
 const modPath = "github.com/biscuit-auth/biscuit-go/v2"
